@@ -85,6 +85,52 @@ theorem signCommit_verifies (L : Lawful o G) (prm : Params) (fuel : Nat) (msg : 
   rw [hv, h2]
   exact (verify_eq_true_iff prm _ _ _).2 h1
 
+/-- the optional arguments of the public API, hashed spellings included (`sign(…, commit=…)`,
+    `verify(…, commit=…, receipt=…)`, any reduction `H`): whatever is signed — without a commitment
+    (`none`), or with ANY commitment, the empty byte string `some []` like every other — verifies when
+    handed back with exactly what signing returned; a receipt comes back iff a commitment went in. -/
+theorem signHashed_verifies (L : Lawful o G) (prm : Params) (H : Bytes → Bytes) (fuel : Nat) (msg : Bytes)
+    (q : Int) (aux : Bytes) (commit : Option Bytes) (sg : Sig) (receipt : Option α)
+    (h : signHashed o prm H fuel msg q aux commit = .ok (sg, receipt)) :
+    verifyHashed o prm H fuel msg (o.x (o.mul q o.gen)) sg commit receipt = .ok true ∧
+    receipt.isSome = commit.isSome := by
+  unfold signHashed signOpt at h
+  unfold verifyHashed verifyOpt
+  cases commit with
+  | none =>
+    simp only [Option.map_none] at h ⊢
+    split at h
+    · cases h
+    · next sg' hs =>
+      simp only [Except.ok.injEq, Prod.mk.injEq] at h
+      obtain ⟨rfl, rfl⟩ := h
+      have hv := sign_verifies L prm fuel (H msg) q aux _ hs
+      have hsv : sigValid o sg' = .ok () := ((verify_unfold prm _ _ _).1 hv).1
+      rw [hsv]; dsimp only; rw [hv]; exact ⟨rfl, rfl⟩
+  | some c =>
+    simp only [Option.map_some] at h ⊢
+    split at h
+    · cases h
+    · next sg' R hs =>
+      simp only [Except.ok.injEq, Prod.mk.injEq] at h
+      obtain ⟨rfl, rfl⟩ := h
+      have hv := (signCommit_verifies L prm fuel (H msg) q aux (H c) _ _ hs).1
+      have hsv : sigValid o sg' = .ok () := by
+        unfold verifyCommit at hv
+        cases hu : sigValid o sg' with
+        | ok u => rfl
+        | error e => rw [hu] at hv; cases hv
+      rw [hsv]; dsimp only; rw [hv]; exact ⟨rfl, rfl⟩
+
+/-- a commitment without its receipt, or a receipt without its commitment, is refused as the caller's
+    TypeError for every well-formed signature — in particular the EMPTY commitment is not "no
+    commitment": `verify(…, commit=b"", receipt=None)` does not answer True. -/
+theorem verifyOpt_mismatch (prm : Params) (fuel : Nat) (msg : Bytes) (xQ : Int) (sg : Sig)
+    (c : Bytes) (R : α) (hv : sigValid o sg = .ok ()) :
+    verifyOpt o prm fuel msg xQ sg (some c) none = .error .type ∧
+    verifyOpt o prm fuel msg xQ sg none (some R) = .error .type := by
+  unfold verifyOpt; rw [hv]; exact ⟨rfl, rfl⟩
+
 /-! ## the fixed-size codec (T5) — no group law needed -/
 
 /-- T5a: `Sig.parse (Sig.serialize sig) = sig` whenever serialization is accepted (sizes as on
@@ -198,6 +244,8 @@ example : verify Toy.ops Toy.prm [1, 2] 2 ⟨1, 4⟩ = true := by decide
 example : verify Toy.ops Toy.prm [1, 2] 2 ⟨1, 5⟩ = false := by decide
 example : genKeys Toy.ops 3 = .ok (4, 2) := by decide
 example : signCommit Toy.ops Toy.prm 5 [1] 3 [0] [9] = .ok (⟨1, 4⟩, 6) := by decide
+example : signHashed Toy.ops Toy.prm (fun m => m) 5 [1] 3 [0] (some []) = .ok (⟨1, 4⟩, some 6) := by decide
+example : verifyOpt Toy.ops Toy.prm 5 [1] 2 ⟨1, 4⟩ (some []) (some 6) = .ok true := by decide
 example : serialize Toy.ops Toy.prm ⟨1, 4⟩ = .ok [1, 4] := by decide
 example : batchVerify Toy.ops Toy.prm (fun _ => 5) [⟨[1, 2], 2, ⟨1, 4⟩⟩, ⟨[], 2, ⟨1, 4⟩⟩] = true := by decide
 example : batchVerify Toy.ops Toy.prm (fun _ => 5) [⟨[1, 2], 2, ⟨1, 4⟩⟩, ⟨[], 2, ⟨1, 5⟩⟩] = false := by decide
